@@ -31,6 +31,37 @@ pub struct FlowCase {
     /// interleaving of the two directions: 0 all client first, 1 alternate, 2 seeded merge
     pub interleave: u8,
     pub v4: bool,
+    /// HTTP/1 heads with bare LF line ends (bit 0: request head, bit 1: response head) - lenient recipients accept them (RFC 7230 3.5)
+    #[serde(default)]
+    pub lf_heads: u8,
+}
+
+impl FlowCase {
+    /// the exchange's byte streams, with the HTTP/1 heads optionally rewritten to bare-LF line ends (bodies untouched)
+    pub fn streams(&self) -> (Vec<u8>, usize, Vec<u8>, usize) {
+        let (cs, ch, ss, sh) = self.exchange.streams();
+        if !matches!(self.exchange, Exchange::H1 { .. }) || self.lf_heads & 3 == 0 {
+            return (cs, ch, ss, sh);
+        }
+        let to_lf = |stream: Vec<u8>, head: usize| -> (Vec<u8>, usize) {
+            let mut h: Vec<u8> = Vec::with_capacity(head);
+            let mut i = 0;
+            while i < head {
+                if stream[i] == b'\r' && i + 1 < head && stream[i + 1] == b'\n' {
+                    i += 1;
+                    continue;
+                }
+                h.push(stream[i]);
+                i += 1;
+            }
+            let n = h.len();
+            h.extend_from_slice(&stream[head..]);
+            (h, n)
+        };
+        let (cs, ch) = if self.lf_heads & 1 != 0 { to_lf(cs, ch) } else { (cs, ch) };
+        let (ss, sh) = if self.lf_heads & 2 != 0 { to_lf(ss, sh) } else { (ss, sh) };
+        (cs, ch, ss, sh)
+    }
 }
 
 impl Exchange {
@@ -121,7 +152,7 @@ fn permute(n: usize, mode: u8, seed: u64, last: Option<usize>) -> Vec<usize> {
 
 /// Build the packet trace of a flow and the per-direction segment boundaries
 pub fn build(c: &FlowCase) -> (Vec<Pkt>, Vec<(usize, usize)>, Vec<(usize, usize)>, usize, usize) {
-    let (cs, ch, ss, sh) = c.exchange.streams();
+    let (cs, ch, ss, sh) = c.streams();
     let (cip, sip) = ips(c.v4);
     let (cport, sport) = (49152u16, 80u16);
     let mk_segs = |stream: &[u8], cuts: &[u16]| -> Vec<(usize, usize)> {
@@ -317,14 +348,14 @@ pub fn exchange() -> impl Strategy<Value = Exchange> {
             }
             if !a.request || b.request {
                 // both same kind: rebuild from simple parts
-                let rq = H2Case { request: true, block: if a.request { a.block.clone() } else { simple_req_block() }, framing: a.framing.clone(), pre: a.pre.clone(), body: a.body.clone() , hostile_tail: vec![] };
+                let rq = H2Case { request: true, block: if a.request { a.block.clone() } else { simple_req_block() }, framing: a.framing.clone(), pre: a.pre.clone(), body: a.body.clone() , hostile_tail: vec![], flag_xor: 0 };
                 let mut rs_pre = b.pre.clone();
                 if !matches!(rs_pre.first(), Some(crate::props::c16::PreFrame::Settings(_))) {
                     rs_pre.insert(0, crate::props::c16::PreFrame::Settings(vec![(3, 100)]));
                 }
                 let mut fr = b.framing.clone();
                 fr.reserved_bit = false;
-                let rs = H2Case { request: false, block: if !b.request { b.block.clone() } else { simple_resp_block() }, framing: fr, pre: rs_pre, body: b.body.clone() , hostile_tail: vec![] };
+                let rs = H2Case { request: false, block: if !b.request { b.block.clone() } else { simple_resp_block() }, framing: fr, pre: rs_pre, body: b.body.clone() , hostile_tail: vec![], flag_xor: 0 };
                 return Exchange::H2 { req: rq, resp: rs };
             }
             Exchange::H2 { req: a, resp: b }
@@ -352,12 +383,13 @@ pub fn flow_case(orders: &'static [u8]) -> impl Strategy<Value = FlowCase> {
         any::<u64>(),
         0u8..3,
         proptest::bool::weighted(0.8),
+        prop_oneof![3 => Just(0u8), 1 => 1u8..4],
     )
-        .prop_map(|(exchange, c_cuts, s_cuts, c_isn, s_isn, order, order_seed, interleave, v4)| FlowCase { exchange, c_cuts, s_cuts, c_isn, s_isn, order, order_seed, interleave, v4 })
+        .prop_map(|(exchange, c_cuts, s_cuts, c_isn, s_isn, order, order_seed, interleave, v4, lf_heads)| FlowCase { exchange, c_cuts, s_cuts, c_isn, s_isn, order, order_seed, interleave, v4, lf_heads })
 }
 
 fn classify(c: &FlowCase, st: &mut Stats) -> bool {
-    let (cs, _, ss, _) = c.exchange.streams();
+    let (cs, _, ss, _) = c.streams();
     let near = |isn: u32, len: usize| (u32::MAX - isn) as usize <= len + 64;
     let wrap = near(c.c_isn, cs.len()) || near(c.s_isn, ss.len());
     if wrap {
